@@ -327,11 +327,11 @@ def _table_cenv(vals, extra):
     return c
 
 
-def r7_table_scans(ctx, prog):
+def r7_table_scans(ctx, prog, rule_id='C03.R7'):
     """Finite-domain evaluation over every content of a three-entry session table (each entry empty / a session of this slot / of another slot, RO or RW):
     the scanning functions must compute what their name says for every content, in particular with holes in any position."""
     from engine.interp import St
-    r = ctx.rule('C03.R7', 'the scans of the session table see every entry: haveSession / haveROSession / last-session test / close-all are correct for every table content', floor=4, engine='E1 finite-domain, concrete small vector')
+    r = ctx.rule(rule_id, 'the scans of the session table see every entry: haveSession / haveROSession / last-session test / close-all are correct for every table content', floor=4, engine='E1 finite-domain, concrete small vector')
     kinds = [None, (7, 0), (7, 1), (5, 1), (5, 0)]
     tables3 = [list(t) for t in itertools.product(kinds, repeat=3)]
 
